@@ -2,6 +2,7 @@ package vuego
 
 import (
 	"bytes"
+	"errors"
 	"io/fs"
 	"strings"
 	"sync"
@@ -13,6 +14,51 @@ import (
 
 // lessRenderMu serialises calls into the lessgo renderer, which is not safe for concurrent use.
 var lessRenderMu sync.Mutex
+
+// maxLessImportDepth bounds the nesting of LESS @import statements.
+const maxLessImportDepth = 100
+
+// lessImportGuard is the filesystem handed to the LESS parser. The parser resolves @import
+// by opening the imported file and parsing it recursively while the file is still open,
+// without remembering which files it has seen: a file that imports itself, directly or
+// through others, recursed until the stack overflowed. The number of files open at the same
+// time is the import depth, so the guard refuses to open more than maxLessImportDepth.
+type lessImportGuard struct {
+	fs      fs.FS
+	open    int
+	tooDeep error // set once the limit was hit; every later Open fails, and the compilation reports it
+}
+
+func (g *lessImportGuard) Open(name string) (fs.File, error) {
+	if g.tooDeep == nil && g.open >= maxLessImportDepth {
+		g.tooDeep = &fs.PathError{Op: "open", Path: name, Err: errors.New("LESS @import nesting too deep, possible circular import")}
+	}
+	if g.tooDeep != nil {
+		// the parser ignores import errors and goes on with the next statement: fail every
+		// further import too, otherwise a file importing itself twice costs 2^depth opens
+		return nil, g.tooDeep
+	}
+	f, err := g.fs.Open(name)
+	if err != nil {
+		return nil, err
+	}
+	g.open++
+	return &lessImportFile{File: f, guard: g}, nil
+}
+
+type lessImportFile struct {
+	fs.File
+	guard  *lessImportGuard
+	closed bool
+}
+
+func (f *lessImportFile) Close() error {
+	if !f.closed {
+		f.closed = true
+		f.guard.open--
+	}
+	return f.File.Close()
+}
 
 // LessProcessorError wraps processing errors with context.
 type LessProcessorError struct {
@@ -118,11 +164,16 @@ func (lp *LessProcessor) compileLessTag(styleNode *html.Node) error {
 
 	// Parse and compile LESS to CSS
 	parser := dst.NewParser(bytes.NewReader([]byte(lessContent)))
+	var guard *lessImportGuard
 	if lp.fs != nil {
-		parser = dst.NewParserWithFS(bytes.NewReader([]byte(lessContent)), lp.fs)
+		guard = &lessImportGuard{fs: lp.fs}
+		parser = dst.NewParserWithFS(bytes.NewReader([]byte(lessContent)), guard)
 	}
 
 	file, err := parser.Parse()
+	if err == nil && guard != nil && guard.tooDeep != nil {
+		err = guard.tooDeep
+	}
 	if err != nil {
 		return &LessProcessorError{Err: err, Reason: "failed to parse LESS"}
 	}
